@@ -139,6 +139,27 @@ fn step_case(cx: &mut Ctx, rng: &mut Rng, at: At, delta: i64, special: Option<u6
 		None => (h as i64 + delta) as u64,
 	};
 	slate.ttl_cutoff_height = cutoff;
+	// Sometimes the chain moves on after that full refresh and the acting wallet sees the new height only through
+	// an operation that refreshes its outputs on the way (an estimate of a send): it has then observed that height
+	// all the same.
+	let mut h = h;
+	if special.is_none() && delta > 0 && rng.chance(1, 2) {
+		for _ in 0..(delta as u64 + rng.below(2)) {
+			let _ = cx.w.mine(None, false);
+		}
+		let wal = &cx.w.wallets[actor];
+		let seen = wal.init_send(InitTxArgs { amount: 1_000_000, minimum_confirmations: 1, estimate_only: Some(true), ..Default::default() }).is_ok();
+		if seen {
+			h = cx.w.height();
+			cx.rep.count("height-observed-only-through-an-output-refresh-inside-another-operation");
+		} else {
+			// the estimate failed (funds tied up by the case's own pending transactions): whether it had refreshed
+			// before failing is not visible from outside, so what the wallet has observed is unknown - not judged
+			cx.rep.count("height-observation-unknown(estimate-failed):case-skipped");
+			cx.cleanup();
+			return;
+		}
+	}
 	let expect_expired = cutoff != 0 && h >= cutoff;
 	let own_ttl: Option<u64> = match rng.below(3) {
 		0 => None,
